@@ -26,7 +26,12 @@ ScanOk(lg, i, act, ini) ==
            [] x[1] = "ib" -> ScanOk(lg, i + 1, act, ini \cup {b})
            [] x[1] = "ie" -> ScanOk(lg, i + 1, act, ini \ {b})
            [] OTHER -> FALSE
-Startup(e) == ScanOk(e.log, 1, [b \in 1..Len(H(tid).kind) |-> 0], {})
+(* an attempt that was refused: enter immediately followed by fail of the same block      *)
+HasRefusal(lg) == \E i \in 1..(Len(lg) - 1) : lg[i][1] = "enter" /\ lg[i + 1][1] = "fail" /\ lg[i + 1][2] = lg[i][2]
+(* ... and the start-up of these circuits fails for no other reason than a refused event  *)
+(* (a filter rejection or a conditional event resolving to "no event" stops nothing)      *)
+Startup(e) == /\ ScanOk(e.log, 1, [b \in 1..Len(H(tid).kind) |-> 0], {})
+              /\ (e.cerr => HasRefusal(e.log))
 TraceInit == tid \in 1..NTraces /\ l = 1 /\ vals = H(tid).vals /\ dead = FALSE
 Step == /\ l <= Len(Ev(tid)) /\ ~dead
         /\ LET e == Ev(tid)[l] IN
